@@ -76,7 +76,12 @@ def compare(o: np.ndarray, j: np.ndarray, r64: np.ndarray | None, rtol: float, a
         if double:
             tol = 64 * _ulp(np.abs(r), np.float64) + 1e-12 * np.maximum(1, np.abs(r))
         else:
-            tol = 8 * np.maximum(np.abs(b - r), _ulp(np.abs(r), np.float32)) + 1e-6 * np.maximum(1, np.abs(r))
+            # "the error JAX's own single-precision evaluation already carries", measured on the
+            # whole tensor (rounding errors of individual elements are random; an element where JAX
+            # happens to be exact must not make the model's ordinary rounding an alarm)
+            scale = float(np.max(np.abs(r))) if r.size else 0.0
+            jax_err = float(np.max(np.abs(b - r))) if r.size else 0.0
+            tol = 8 * max(jax_err, float(_ulp(np.array(scale), np.float32))) + 1e-6 * max(1.0, scale)
         if np.all(np.abs(a - r) <= tol):
             return None
     err = np.abs(a - b)
